@@ -4,7 +4,7 @@
    The modelled operations (Model.v, ModelF.v) contain every conversion / wrap modulo 2^w of the C and RecInt types and
    every IEEE rounding explicitly, so "= exact residue" states that no overflow, wrap or rounding is observable. *)
 From Coq Require Import ZArith List.
-From C03 Require Import Model ModelF Params ProofsInt ProofsEuclid ProofsIntInv ProofsRU ProofsFM ProofsTop.
+From C03 Require Import Model ModelF Params ProofsInt ProofsEuclid ProofsIntInv ProofsRU ProofsFM ProofsBI ProofsTop.
 Local Open Scope Z_scope.
 
 (* integral Modular<S,C>: every instantiated (Storage_t, Compute_t) pair, every p in [minCardinality, maxCardinality] *)
@@ -43,3 +43,16 @@ Print Assumptions C03_recint_ring_exact_advertised.
 (* Modular<float>, Modular<float,double>, Modular<double>: no rounding observable up to maxCardinality *)
 Theorem C03_floating_ring_exact_advertised : FM_adv_stmt.   Proof. exact fm_adv. Qed.
 Print Assumptions C03_floating_ring_exact_advertised.
+(* ModularBalanced<int32_t|int64_t>, PARTIAL: the integer tail (wrapping a*b - q*_p, NORMALISE) is exact whenever the double
+   quotient estimate meets q_tolerance; that the estimate always does for p <= maxCardinality is not proved (correspondence-tested).
+   Full statements = the same without the q_tolerance hypothesis. *)
+Theorem C03_balanced_int_mul_partial : forall w p, BI_mul_partial_stmt w p.     Proof. exact bi_mul_partial. Qed.
+Print Assumptions C03_balanced_int_mul_partial.
+Theorem C03_balanced_int_axpy_partial : forall w p, BI_axpy_partial_stmt w p.   Proof. exact bi_axpy_partial. Qed.
+Print Assumptions C03_balanced_int_axpy_partial.
+Theorem C03_balanced_int_axmy_partial : forall w p, BI_axmy_partial_stmt w p.   Proof. exact bi_axmy_partial. Qed.
+Print Assumptions C03_balanced_int_axmy_partial.
+Theorem C03_balanced_int_tolerance_satisfiable :
+  BI_pre 64 7 /\ q_tolerance 7 (3 * 3) (bi_quot 64 7 (rn 53 (rn 53 3 * rn 53 3))).
+Proof. exact bi_tolerance_sat. Qed.
+Print Assumptions C03_balanced_int_tolerance_satisfiable.
